@@ -14,7 +14,7 @@ for d in sorted(glob.glob("/verif/seeded/c??-?")):
     except Exception:  # noqa: BLE001
         res = {}
     first = open(os.path.join(d, "README.md")).read().strip().splitlines()[0].lstrip("# ").strip()
-    first = re.sub(r"^(C\d\d[- ]?(change )?[a-d]\s*[-:–—]*\s*|Change [a-d]\s*[-:–—]*\s*)", "", first, flags=re.I)
+    first = re.sub(r"^(C\d\d[- ]?(change )?[a-f]\s*[-:–—]*\s*|Change [a-f]\s*[-:–—]*\s*)", "", first, flags=re.I)
     what = ""
     for l in res.get("check_violations", []):
         if l.strip().startswith("what:"):
